@@ -4,9 +4,9 @@ PROPS = ["C19"]
 CLAIMS = {
     'C19': (
         'model_checking',
-        'TLC checks C19 exhaustively on spec/Lamport.tla (2 threads x 2 calls and 3 threads x 1 call over Time/Increment/Witness with values {0,1,2,MAX-1,MAX}, every interleaving of the atomic accesses, MAX standing for 2^64-1); the real LamportClock, yield-instrumented from the working tree, is run under every schedule with <=2 (thorough 3) preemptions plus random ones by a cooperative scheduler, and every scheduling step is validated by TLC against the spec (subset construction over the unlogged locals) with the C19 monitor on the observed counter and results.',
+        'TLC checks C19 exhaustively on spec/Lamport.tla (2 threads x 2 calls and 3 threads x 1 call over Time/Increment/Witness with values {0,1,2,MAX-1,MAX}, every interleaving of the atomic accesses, MAX standing for 2^64-1); the real LamportClock, yield-instrumented from the working tree, is run under every schedule with <=2 (thorough 3) preemptions plus random ones by a cooperative scheduler, and every scheduling step is validated by TLC against the spec (subset construction over the unlogged locals) with the C19 monitor on the observed counter and results. Thorough tier adds an unbounded argument: spec/LamportInd.tla (same atomic accesses, MAX symbolic) has an inductive invariant implying C19 below the top, discharged by Apalache for every MAX >= 2 and histories of any length, and TLC checks that LamportInd steps are Lamport!Acts steps.',
         'Trusts TLC, the instrumenter (yield before every statement of lamport.go), the gap embedding of 0..MAX into uint64. The wrap at 2^64-1 is a recorded known finding (tag at_top).',
-        'TLA+ spec + TLC exhaustive check; systematic schedule enumeration of the instrumented real code; TLC trace validation with property monitors',
+        'TLA+ spec + TLC exhaustive check; systematic schedule enumeration of the instrumented real code; TLC trace validation with property monitors; Apalache inductive invariant (thorough)',
         '5 C19',
     ),
 }
@@ -37,11 +37,35 @@ def build(ctx):
     return vlib.go_build(ctx, "lamport", overlay=ov)
 
 
+def unbounded(ctx):
+    """Thorough tier: C19 below the top for EVERY MAX >= 2 and histories of any length.  spec/LamportInd.tla is a flat,
+    typed transcription of the same atomic accesses; Apalache shows IndInv is inductive (Init => IndInv, IndInv /\\ Next =>
+    IndInv', IndInv => C19) with MAX symbolic; TLC shows on every reachable step at MAX=4 that LamportInd's steps are
+    Lamport!Acts steps (so it is the same design the real code is trace-validated against); the recorded wrap at the top
+    must stay reachable (a counterexample to ~bad is expected)."""
+    a = ["--cinit=ConstInit"]
+    for args, want in ((a + ["--init=Init", "--inv=IndInv", "--length=0"], "ok"),
+                       (a + ["--init=IndInit", "--inv=IndInv", "--length=1"], "ok"),
+                       (a + ["--init=IndInit", "--inv=C19", "--length=0"], "ok"),
+                       (a + ["--init=Init", "--inv=NeverBad", "--length=4"], "cex")):
+        got = vlib.apalache(ctx, "LamportInd", args)
+        if got != want:
+            raise vlib.Inconclusive("LamportInd: apalache %s gave %s, expected %s -- spec error, no verdict" % (" ".join(args), got, want))
+    ref = vlib.tlc(ctx, "MC_LamportInd", "INIT Init\nNEXT Next\nCONSTANT MAX = 4\nCONSTANT Threads = {1, 2}\n"
+                   "CONSTANT Vals <- MCVals\nINVARIANT IndInv\nINVARIANT C19\nPROPERTY RefinesLamport\n")
+    if ref.violated:
+        raise vlib.Inconclusive("LamportInd does not refine Lamport.tla at MAX=4 (%s) -- spec error, no verdict" % ref.violated)
+    return {"tool": "apalache-mc 0.58.0 (inductive step, MAX symbolic, 3 threads) + TLC refinement LamportInd => Lamport!Acts",
+            "obligations": ["Init => IndInv", "IndInv /\\ Next => IndInv'", "IndInv => C19", "wrap finding reachable in <= 4 steps"],
+            "refinement_states": ref.distinct, "refinement_constants": "MAX=4, 2 threads, witness values 0..4"}
+
+
 def run(ctx, replay=None):
     binary = build(ctx)
     thorough = ctx.thorough()
     vals = [0, 1, 2, MAX - 1, MAX]
     mc = None
+    ind = None
     if replay:
         v = json.load(open(replay))
         progs = [v["prog"]]
@@ -58,6 +82,8 @@ def run(ctx, replay=None):
                 raise vlib.Inconclusive("model (3 threads) violates C19 beyond the recorded finding")
             mc.generated += mc3.generated
             mc.distinct += mc3.distinct
+        if thorough:
+            ind = unbounded(ctx)
         # the finding must be reachable in the model, otherwise the waiver is vacuous
         strict = vlib.tlc(ctx, "MC_Lamport", (cfg % (MAX, 1, "%d" % MAX)).replace("INVARIANT C19", "INVARIANT C19Strict"))
         if not strict.violated:
@@ -122,6 +148,8 @@ def run(ctx, replay=None):
                 "step by step against Lamport.tla; distinct_nontrivial = number of schedules executed (each a distinct choice sequence)",
         "samples": [progs[0], progs[4] if len(progs) > 4 else progs[0]],
     }
+    if ind:
+        cov["unbounded_inductive_invariant"] = ind
     assume = ["yield points are inserted before every statement of lamport.go; atomic accesses are single statements",
               "model range 0..MAX is embedded into uint64 with MAX |-> 2^64-1"]
     vlib.finish(ctx, "model_checking", cov, assume, new, known)
